@@ -139,3 +139,12 @@ package keeper
 //@       verifiedAck(cs, old(k.clientKeeper.ClientStore(ctx, p.DstChain)), msg.ProofHeight,
 //@                   ite(clientTypeOf(cs) == exported.TSS, []byte(msg.Signer), msg.ProofAcked),
 //@                   p.SrcChain, p.DstChain, p.Sequence, types.CommitAcknowledgement(msg.Acknowledgement))
+
+// ---- EVM calls made by the module (C03, C04, C06) ----------------------------------------------
+
+// verif:func (Keeper).CallEVMWithData
+//@ modifies world(ctx)
+//@ ensures [all-or-nothing] err != nil ==> unchanged(ctx)
+//@ ensures [resp]           err == nil ==> result != nil
+//@ ensures [receipts-kept]  receiptsKept(old(xibc(ctx)), xibc(ctx))
+//@ ensures [acks-kept]      acksKept(old(xibc(ctx)), xibc(ctx))
